@@ -108,6 +108,16 @@ theorem publication_discipline_safe (tr : List Op) (path : String) (s0 : FS)
   have h := (disc_crash path (readCur s0 path) tr s0 [] (dinv_of_quiescent hq hwf) hd).1 s hs
   simpa using h.plReads r hr
 
+/-- The shape-specific and the general theorem agree: every trace accepted by `isAtomicReplace` is
+disciplined and publishes exactly the new content (so the flags `atomic=1` and `disciplined=1 pubs=new`
+the driver reports for an observed trace are two views of one fact). -/
+theorem atomic_replace_is_disciplined (tr : List Op) (path : String) (new : Bytes) (s0 : FS)
+    (hq : Quiescent s0 path) (hfresh : ∀ t, tmpOf tr = some t → s0.dir t = none)
+    (h : isAtomicReplace tr path new = true) :
+    disciplined path s0 tr = true ∧ published path s0 tr = [new] := by
+  obtain ⟨fd, tmp, trunc, chunks, tail, rfl, hne, rfl, htail⟩ := isAtomicReplace_shape h
+  exact atomicTrace_disciplined hq (hfresh tmp rfl) hne htail
+
 /-- Failing system calls: if the `k`-th file-system call of an atomic replacement (at or before the
 rename) fails and the deferred cleanup closes (when still open) and removes the temporary file, then
 every crash state of the aborted save reads the previous content, the temporary file is gone at the
